@@ -5,6 +5,7 @@ mod c13;
 mod c14;
 mod c15;
 mod c11;
+mod c10;
 mod aut;
 mod dom;
 mod autprops;
@@ -66,6 +67,7 @@ fn main() {
             "c14" => c14::replay(&line, &mut o),
             "c15" => c15::replay(&line, &mut o),
             "c11" => c11::replay(&line, &mut o),
+            "c10" => c10::replay(&line, &mut o),
             "c01" | "c02" | "c03" | "c04" | "c05" | "c06" | "c07" | "c08" | "c09" | "c17" => autprops::replay(&line, &mut o),
             "c16" => c16::replay(&line, &mut o),
             _ => panic!("unknown property"),
@@ -77,6 +79,7 @@ fn main() {
             "c14" => c14::run(tier, seed, &mut o),
             "c15" => c15::run(tier, seed, &mut o),
             "c11" => c11::run(tier, seed, &mut o),
+            "c10" => c10::run(tier, seed, &mut o),
             "c01" | "c02" | "c03" | "c04" | "c05" | "c06" | "c07" | "c08" | "c09" | "c17" => autprops::run(&prop, tier, seed, &mut o),
             "c17fp" => {
                 print!("{}", autprops::fingerprints(tier, seed));
